@@ -423,6 +423,10 @@ def main():
             for bad in dc["bad"]:
                 verdict.report("C03.term.deep", "deep-chain", bad)
 
+        # ---- C12: the thread is part of the key - the same deduplicated calls made on several threads at once ---------
+        if pid == "C12":
+            cov["threads"] = dedup_on_threads(builds["pure"], seed, tier, verdict)
+
         # ---- satellite of C07: call_with_context, the AsyncScopedValue / async_override API (ScopedCall.tla) --------
         if pid == "C07":
             import sat_c07x
@@ -451,9 +455,64 @@ def main():
         return rc
 
 
+def dedup_on_threads(bdir, seed, tier, verdict):
+    """the same program (same deduplicated functions, same keys) on 2 and 4 real threads at once, barrier start, worker threads
+    all carrying the same name: every thread must see exactly the events of its solo run - a task shared across threads would
+    run its body on one thread only.  (C16's check does this for every kind of state; here for the registry of C12.)"""
+    import random
+    import subprocess
+    jobs = []
+    n = 4 if tier == "quick" else 20
+    for nthreads in (2, 4):
+        for prof in ("dedup", "dedupdirty"):
+            base = dict(plang.PROFILES[prof], nkinds=(1, 1), ntasks=(4, 8))
+            for i in range(n):
+                p = plang.Gen(random.Random("c12t/%s/%d/%d/%d" % (prof, seed, nthreads, i)), base).build()
+                p["kinds"][0].update(impl="debug", flush="ok")
+                jobs.append({"id": len(jobs), "progs": [p] * nthreads, "options": None, "rounds": 3 if tier == "quick" else 6})
+    pr = subprocess.run([common.PY, "-W", "ignore", os.path.join(common.VERIF, "harness", "realize_threads.py")],
+                        input=json.dumps({"jobs": jobs}), capture_output=True, text=True, env=common.pyenv(bdir),
+                        preexec_fn=common.limit_resources(4), timeout=1500)
+    if pr.returncode != 0:
+        raise MachineryError("realize_threads failed: " + pr.stderr[-1500:])
+    runs = bad = 0
+    for r in json.loads(pr.stdout):
+        job = jobs[r["id"]]
+        if any(s_ is None or s_["crash"] for s_ in r["solo"]):
+            raise MachineryError("solo run crashed in the thread stage of C12")
+        for rd, conc in enumerate(r["conc"]):
+            for h, c in enumerate(conc):
+                if c is None:
+                    continue
+                runs += 1
+                solo = pipeline.strip_prio(r["solo"][h]["events"])
+                ev = [] if c["crash"] else pipeline.strip_prio(c["events"])
+                if c["crash"] or ev != solo:
+                    bad += 1
+                    k = next((x for x in range(min(len(ev), len(solo))) if ev[x] != solo[x]), min(len(ev), len(solo)))
+                    verdict.report("C12.thread", "%dthreads" % len(job["progs"]),
+                                   {"threads": {"progs": job["progs"], "thread": h, "round": rd}, "crash": c["crash"],
+                                    "first_difference_at": k, "alone": solo[k] if k < len(solo) else "END",
+                                    "concurrent": ev[k] if k < len(ev) else "END"})
+    return {"jobs": len(jobs), "thread_runs": runs, "differing": bad}
+
+
 def replay(path, pid, sc):
     obj = json.load(open(path))
     case = obj["case"]
+    if "threads" in case:
+        verdict = Verdict(pid)
+        th = case["threads"]
+        import subprocess
+        pr = subprocess.run([common.PY, "-W", "ignore", os.path.join(common.VERIF, "harness", "realize_threads.py")],
+                            input=json.dumps({"jobs": [{"id": 0, "progs": th["progs"], "options": None, "rounds": 10}]}),
+                            capture_output=True, text=True, env=common.pyenv(sc.build("pure")), timeout=600)
+        r = json.loads(pr.stdout)[0]
+        differ = any(c is not None and (c["crash"] or pipeline.strip_prio(c["events"]) != pipeline.strip_prio(r["solo"][h]["events"]))
+                     for conc in r["conc"] for h, c in enumerate(conc))
+        if differ:
+            print("VIOLATION property=%s replay=%s clause=C12.thread" % (pid, path))
+        return 1 if differ else 0
     if case.get("sat") == "c07x":
         import sat_c07x
         verdict = Verdict(pid)
